@@ -12,7 +12,8 @@ RULE = 'each generated sub-graph definition (stateful nodes, self-scheduling scr
 TRUSTED = ['forwarding output / ParentInput alias modelled as direct bindings to the leaf producer'] + list(shp.TRUSTED)
 ASSUMPTIONS = ['all ports TS[int]; REF-shaped boundaries are part of C13'] + list(shp.ASSUMPTIONS)
 TECHNIQUE = 'Lean 4 proof of the nested scheduling invariants (clamp, child never ahead of parent) + differential correspondence + nested-vs-inlined reference monitor'
-LEVEL_TEXT = "Kernel-checked: an out-of-band schedule on an idle child is clamped to the parent's current time and reaches the parent node no later than that time; a child is never evaluated ahead of its parent. The executable model of nested start / evaluate / pull-propagate / push path is compared trace-for-trace with the runtime, and for every generated definition the nested and the inlined wiring must produce identical sink streams (monitor)."
+LEVEL_TEXT = ("Kernel-checked: an out-of-band schedule on an idle child is clamped to the parent's current time and reaches the parent node no later than that time; a child is never evaluated ahead of its parent. The executable model of nested start / evaluate / pull-propagate / push path is compared trace-for-trace with the runtime, and for every generated definition the nested and the inlined wiring must produce identical sink streams (monitor)."
+              " Structured results and implicit captures (Props/C09Shape.lean, Props/C09Capture.lean, stream nestshape): for the forwarding-tree binder as coded, every leaf of a structured result is bound after start, the outer delta of a cycle equals the body's delta and the outer value the body's value at every depth (nested_delta_eq_inlined_delta, nested_depth_irrelevant), nothing ticks outside without a body tick; the outer-capture table maps two references to one slot iff they are the same port and binds each captured body input to exactly that outer port through any number of levels (capture_slots_injective_on_ports, captured_binding_through_levels); the known finding C09-composed and the seeded short-circuit / node-keyed table are kept as kernel-checked counter-witnesses.")
 LEVEL_NOTE = 'Trusted: Lean kernel; model tied by correspondence. The full simulation theorem nested_sim_inlined is NOT proved; its statement is kept in Props/C09.lean and the equality is enforced by the monitor on generated programs (partial).'
 
 
